@@ -3,6 +3,7 @@ import json
 import math
 import traceback
 
+import cppcheck
 import numeric
 import scen
 import tlc
@@ -14,6 +15,7 @@ from common import finish
 LEVEL = "model_checking"
 ASSUME = ["exact part: InvCovValid (symmetric, all principal minors >= 0, exact rationals) holds on every state of Formak.tla behaviours, incl. "
           "models with singular process Jacobians; those behaviours are replayed into the Python filter (no refusal, values match)",
+          "the exact behaviours (start covariances D + v v^T incl. singular ones) are also replayed into the generated C++ filter",
           "rounding part: TLC only checks the protocol CovGate (valid_in => not refused and valid_out); validity is decided by the projection: "
           "symmetric within 1e-9*s and lambda_min >= -1e-9*s (numpy eigvalsh) with s = |P| for inputs (strict) and s = the largest covariance "
           "magnitude seen so far in the history for outputs (rounding is relative to the operands) -- TLC has no floating point (DESIGN 6)",
@@ -138,6 +140,37 @@ def run_history(mods, job):
     return events
 
 
+def has_singular(scn):
+    """does some covariance of the behaviour (set or produced) have determinant 0 (exact rationals)"""
+    from fractions import Fraction
+    for st in scn["steps"]:
+        P = st.get("P")
+        if not isinstance(P, dict) or not P:
+            continue
+        names = sorted(P)
+        try:
+            M = [[Fraction(P[r][c][0], P[r][c][1]) for c in names] for r in names]
+        except (TypeError, ZeroDivisionError, KeyError, IndexError):
+            continue
+        n = len(M)
+        det = Fraction(1)
+        for i in range(n):
+            piv = next((k for k in range(i, n) if M[k][i] != 0), None)
+            if piv is None:
+                det = Fraction(0)
+                break
+            if piv != i:
+                M[i], M[piv] = M[piv], M[i]
+                det = -det
+            det *= M[i][i]
+            for k in range(i + 1, n):
+                f = M[k][i] / M[i][i]
+                M[k] = [a - f * b for a, b in zip(M[k], M[i])]
+        if det == 0:
+            return True
+    return False
+
+
 def run(ctx):
     quick = ctx.quick
     # ---- exact part: Formak.tla histories with InvCovValid, replayed ----
@@ -147,6 +180,12 @@ def run(ctx):
         scns = []
     results = scen.replay_all(ctx, scns, cse_settings=(False,), force_ekf=True)
     counters = scen.record_results(ctx, results, key_prefix="exact:")
+    # the same exact behaviours through the generated C++ filter, singular (positive semi-definite) covariances first
+    sing = [s for s in scns if has_singular(s)]
+    pick = (sing + [s for s in scns if s not in sing])[: (8 if quick else 120)]
+    rc = cppcheck.replay_cpp(ctx, pick, cse_settings=(True,), kind="ekf")
+    kcpp = cppcheck.record(ctx, rc, key_prefix="exact-cpp:")
+    kcpp["behaviours_with_a_singular_covariance"] = len([s for s in pick if s in sing])
     # ---- rounding part: randomised long histories -> CovGate_Trace ----
     jobs = []
     nh = 9 if quick else 90
@@ -182,12 +221,16 @@ def run(ctx):
         what = "refused-valid-covariance" if bad["outcome"] == "refused" else ("invalid-output" if bad["outcome"] == "ok" else bad["outcome"])
         ctx.violation("%s:%s" % (what, bad["kind"]), "model '%s' step %d (%s): %s %s" % (bad["model"], bad["step"], bad["kind"], what, bad.get("detail", "")[:200]),
                       {"job": j, "event": bad, "history_length": len(ev)})
+    repo = None
+    if not quick:
+        import repotests          # the repository's own tests, recorded and validated against EKFCalls.tla
+        repo = repotests.run(ctx, "C09")
     cov = {"states": stats.get("states", 0) + (tres.distinct if tres else 0), "transitions": stats.get("transitions", 0) + (tres.states if tres else 0),
            "traces_validated_against_impl": len(traces) + len(scns), "samples": [traces[0][:4]] if traces else [],
            "evaluations": nsteps + counters["values_compared"], "distinct_nontrivial": len(traces), "history_steps": nsteps,
            "rule": "history = randomised (seeded) sequence of predictions (dt in (0, max_dt]) and sensor updates on 4 fixed models (project's mass/z/v/a, "
                    "exactly correlated states, nonlinear with calibration, zero Jacobian row) and TLC-drawn models; singular start covariances included",
-           "exact": counters, "tlc_runs": stats.get("tlc_runs")}
+           "exact": counters, "exact_cpp": kcpp, "tlc_runs": stats.get("tlc_runs"), "repo_tests": repo}
     return finish(ctx, LEVEL, cov, ASSUME)
 
 
